@@ -1,11 +1,13 @@
 """C17 — every call awaiting a reply completes exactly once (sequential core)."""
 META = {"explanation": "see harness/C17_pending.c", "outside": ["real thread interleavings, condition-variable hand-off in blocking waits", "timer arithmetic", "send path (message marshalling, outgoing queue)"]}
+PRE_NAME = ["nothing", "reply", "timeout", "cancel"]; PRE_VAL = [4, 0, 1, 2]
 def jobs(tier):
-    return [Job(name=f"two_events.N{n}", group="C17.core", harness="harness/C17_pending.c", defines={"NCALLS": n}, real=["dbus/dbus-list.c"],
+    return [Job(name=f"{'close.after_' + PRE_NAME[c - 1] if c else 'two_events'}.N{n}", group="C17.close" if c else "C17.core", harness="harness/C17_pending.c", defines=dict({"NCALLS": n}, **({"WITH_CLOSE": 1, "PRE": PRE_VAL[c - 1]} if c else {})), real=["dbus/dbus-list.c"],
                 env=["assert_stubs.c", "pool_lock.c"], checks="assert", unwind=6, unwindset=["strcmp.0:64", "vf_streq.0:64"], timeout=1200, mem_gb=20,
                 encodes=["dbus_connection_dispatch", "complete_pending_call_and_unlock", "_dbus_connection_attach_pending_call_unlocked", "_dbus_connection_detach_pending_call_and_unlock",
                          "free_pending_call_on_hash_removal", "reply_handler_timeout", "dbus_pending_call_cancel", "_dbus_connection_remove_pending_call", "_dbus_pending_call_set_reply_unlocked",
                          "_dbus_pending_call_start_completion_unlocked", "_dbus_pending_call_finish_completion", "_dbus_connection_get_next_client_serial",
-                         "_dbus_connection_queue_received_message_link", "_dbus_connection_queue_synthesized_message_link"],
+                         "_dbus_connection_queue_received_message_link", "_dbus_connection_queue_synthesized_message_link", "connection_timeout_and_complete_all_pending_calls_unlocked (close jobs)", "_dbus_pending_call_queue_timeout_error_unlocked"],
                 stubs=["connection lock = ghost flag", "pending_replies = 2-slot int map calling the value-free function", "timeouts = records", "messages = records (R8)", "object tree dispatch = not handled"],
-                bounds=f"{n} attached call(s), two symbolic events out of REPLY(r: 32-bit) / TIMEOUT(i) / CANCEL(i)", shape=f"{n} calls, two events") for n in (1, 2)]
+                bounds=f"{n} attached call(s), " + ("first event fixed by the job (" + (PRE_NAME[c - 1] if c else "") + " for call 0), then the peer closes and everything queued is dispatched" if c else "two symbolic events out of REPLY(r: 32-bit) / TIMEOUT(i) / CANCEL(i)"),
+                shape=f"{n} calls, " + ("close after " + PRE_NAME[c - 1] if c else "two events")) for n in (1, 2) for c in (0, 1, 2, 3, 4)]
